@@ -1,5 +1,5 @@
 (* C14 — inline, flatten and `as` change presentation, never meaning.  Statements only. *)
-From TsRs Require Import Base.Str Base.Outcome Gen.Tables Model.Case Model.TsAst Model.Rust Model.Docs Model.Gen Spec.TsFree Spec.TsSem Proofs.Gen_subst_proofs Proofs.Gen_decl_proofs Proofs.Sem_flatten_proofs Proofs.Merge_text_proofs.
+From TsRs Require Import Base.Str Base.Outcome Gen.Tables Model.Case Model.TsAst Model.Rust Model.Docs Model.Gen Spec.TsFree Spec.TsSem Proofs.Gen_subst_proofs Proofs.Gen_decl_proofs Proofs.Sem_flatten_proofs Proofs.Merge_text_proofs Spec.TsGrammar Spec.TsSyn Spec.GenClean Proofs.Gen_syn_proofs.
 From Coq Require Import List.
 Import ListNotations.
 
@@ -54,6 +54,21 @@ Theorem C14_merged_text_is_structural_merge :
   forall l, l <> [] -> Forall okop l -> print (TMerged (TInter l)) = print (inter_of (merge_adjacent l)).
 Proof. exact glue_is_structural_merge. Qed.
 
+(* for every clean environment (Spec/GenClean.v; flatten of plain structs included), every definition, all type arguments
+   without unusable parameter names and every fuel: the text of inline() IS the text of its structural meaning — the textual
+   flatten rewrites never change what is denoted *)
+Theorem C14_generated_text_is_structural :
+  forall is_upper is_alnum is_numeric R fuel id d args r,
+    classes_ok is_alnum is_numeric = true ->
+    clean_envb is_upper is_alnum is_numeric R = true ->
+    lookup R id = Some d -> forallb (rty_clean is_alnum is_numeric) args = true ->
+    gen is_upper is_alnum is_numeric R fuel d args = Ok r ->
+    print (norm (fst r)) = print (fst r).
+Proof.
+  intros iu ia inu R fuel id d args r Hc HR Hl Ha H.
+  pose proof (gen_norm_ok iu ia inu Hc R HR fuel id d args r Hl Ha H) as Hn. unfold norm_ok in Hn. apply str_eqb_eq in Hn. exact Hn.
+Qed.
+
 Example C14_merged_text_nonvacuous :
   let h := fun k : String.string => {| p_docs := []; p_key := lit k; p_text := lit k; p_optional := false |} in
   let l := [TObj OStruct [(h "a", TPrim (lit "number"))]; TObj OStruct [(h "b", TObj OVariant [(h "k", TLit (lit "A"))])];
@@ -63,6 +78,7 @@ Example C14_merged_text_nonvacuous :
 Proof. split; [repeat constructor; cbn; try discriminate; try (repeat split; [reflexivity | reflexivity | cbn; repeat constructor]) | vm_compute; reflexivity]. Qed.
 
 Print Assumptions C14_merged_text_is_structural_merge.
+Print Assumptions C14_generated_text_is_structural.
 Print Assumptions C14_inline_is_instantiated_body.
 Print Assumptions C14_reference_denotes_body.
 Print Assumptions C14_flatten_merges.
